@@ -63,7 +63,7 @@ def main():
     (ROOT / "MANIFEST.json").write_text(json.dumps(man, indent=1) + "\n")
 
 
-HOOK_COMMITS = ["6646e89"]
+HOOK_COMMITS = ["6646e89", "998c52d"]
 
 if __name__ == "__main__":
     main()
